@@ -42,9 +42,16 @@ def strategy(tier: str) -> Any:
                     gen.mime_message(), big).filter(lambda b: len(b) > 0)
     rng = st.tuples(st.integers(0, 300), st.integers(1, 300))
     mime = st.tuples(msg).map(lambda t: {'tier': 'mime', 'msg': t[0]})
+    # 'pair': a second, different message is stored first and kept. 'dup' =
+    # the same bytes again (content de-duplication path), 'adler' = a sibling
+    # of equal length and equal Adler-32 (the dict backend keys its content
+    # cache on zlib.adler32: b+'abba' and b+'baab' collide for every b),
+    # 'other' = an unrelated message.
     wire = st.tuples(msg, st.sampled_from(['dict', 'dict', 'maildir']),
-                     rng).map(lambda t: {'tier': 'wire', 'msg': t[0],
-                                         'backend': t[1], 'range': list(t[2])})
+                     rng, st.sampled_from(['none', 'none', 'dup', 'adler',
+                                           'adler', 'other'])).map(
+        lambda t: {'tier': 'wire', 'msg': t[0], 'backend': t[1],
+                   'range': list(t[2]), 'pair': t[3]})
     return st.one_of(mime, mime, wire)
 
 
@@ -232,12 +239,35 @@ def _check_wire(case: dict[str, Any], out: CaseOut) -> None:
         assert b'a0 OK' in conn.cmd(b'a0 LOGIN alice pwalice\r\n')
         conn.cmd(b'a1 CREATE Other\r\n')
         conn.cmd(b'a1 CREATE Third\r\n')
+        pair = case.get('pair', 'none')
+        first = None
+        if pair == 'adler':
+            first, b = b + b'abba', b + b'baab'
+        elif pair == 'dup':
+            first = b
+        elif pair == 'other':
+            first = b'Subject: first\r\n\r\nanother message\r\n'
+        if first is not None:
+            out.label('pair:' + pair)
+            got = conn.cmd(b'a1 APPEND Third {%d+}\r\n' % len(first) + first
+                           + b'\r\n')
+            if b'a1 OK' not in got:
+                out.label('append-refused')
+                return
         got = conn.cmd(b'a2 APPEND INBOX {%d+}\r\n' % len(b) + b + b'\r\n')
         if b'a2 OK' not in got:
             out.label('append-refused')
             return
-        conn.cmd(b'a3 SELECT INBOX\r\n')
         tagn = [0]
+        if first is not None:
+            conn.cmd(b'a3 SELECT Third\r\n')
+            _check_mailbox(conn, tagn, first, case['range'], out,
+                           f'{backend}:first-of-pair', False)
+            if out.failures:
+                return
+            conn.cmd(b'a3 STORE 1 +FLAGS.SILENT (\\Deleted)\r\n')
+            conn.cmd(b'a3 CLOSE\r\n')
+        conn.cmd(b'a3 SELECT INBOX\r\n')
         _check_mailbox(conn, tagn, b, case['range'], out,
                        f'{backend}:appended', False)
         if out.failures:
